@@ -19,6 +19,9 @@ CORPUS = [
     # seeded change C02-clone-loses-return-point: 형... 형..... 형. 항...💕 항...💕? 흑 항... 흑... 항. 항...♡!
     ([(0, 1, 3, None), (0, 1, 5, None), (0, 1, 1, None), (1, 1, 3, leaf(8)), (1, 1, 3, (0, leaf(8), None)), (5, 1, 0, None), (1, 1, 3, None),
       (5, 1, 3, None), (1, 1, 1, None), (1, 1, 3, (1, leaf(13), None))], "ab\n"),
+    # seeded change C02-optcode-dot-count-u16: a push with 65 536 or more dots (the dot count of 형 is a factor of the value, not a stack index)
+    ([(0, 1, 65546, None), (3, 1, 1, None)], ""),
+    ([(0, 1, 70000, None), (1, 1, 1, None), (0, 2, 65536, None), (3, 1, 2, None)], ""),
     ([(0, 1, 150, None)] + idiom_loop(random.Random(1), 150)[1:] + [(5, 1, 0, None), (1, 1, 1, None)], "Z"),
 ]
 
@@ -87,6 +90,7 @@ def main(tier, seed):
             if rng.random() < 0.25: p = p + idiom_loop(rng, rng.choice([99, 100, 101, 102, 150]))
             if rng.random() < 0.2: p = p + idiom_read(rng) + idiom_print(rng)
             if rng.random() < 0.08: p = (p[:4] if rng.random() < 0.5 else []) + idiom_return_after_stop(rng)
+            if rng.random() < 0.02: p = [(0, rng.choice([1, 2]), rng.choice([65535, 65536, 65546, 70000, 131077]), None), (rng.choice([1, 3]), 1, rng.choice([1, 2]), None)] + p[:4]
             if rng.random() < 0.04: p = idiom_jump_from_zero(rng) + (idiom_print(rng) if rng.random() < 0.5 else [])
             progs.append((p, rand_stdin(rng)))
         encs = [(enc_prog(p), enc_text(i)) for p, i in progs]
